@@ -69,6 +69,12 @@ const std::vector<std::string> kExpr = {
   /*17*/ "D2" U_UNION "D3",
   /*18*/ "S1=S1",
   /*19*/ "1",
+  /*20*/ "[a\xE2\x88\x88" U_BOOL "(X1)] a\\a",                 // F1: always empty
+  /*21*/ "[a\xE2\x88\x88" U_BOOL "(X1)] a",                      // F1 alternative: identity (changes every value calculated through it)
+  /*22*/ "[a\xE2\x88\x88" U_BOOL "(X1)] a=X1",                   // P1
+  /*23*/ "[a\xE2\x88\x88" U_BOOL "(X1)] a\xE2\x89\xA0X1",       // P1 alternative: negation
+  /*24*/ "F1[X1]",
+  /*25*/ "P1[X1]",
 };
 std::string expr(int i) { return i < 0 ? std::string{} : kExpr.at(static_cast<size_t>(i)); }
 
@@ -460,6 +466,17 @@ struct ModelSys {
       m->Values().SetBasicText(x1, text_of(2));
       m->Values().SetStructureData(s1, value_of(1));
       if (kind == 0) m->Calculations().RecalculateAll();
+    } else if (kind == 5) {   // inactive seed slot (keeps seed indices stable between phases)
+      m->title = "__inactive__";
+    } else if (kind == 4) {   // M4: values calculated THROUGH callables: F1, P1, D1 := F1[X1], D2 := D1∪D1, A1 := P1[X1]
+      const auto x1 = m->Emplace(CstType::base);
+      m->Emplace(CstType::function, expr(20));
+      m->Emplace(CstType::predicate, expr(22));
+      m->Emplace(CstType::term, expr(24));
+      m->Emplace(CstType::term, expr(2));
+      m->Emplace(CstType::axiom, expr(25));
+      m->Values().SetBasicText(x1, text_of(2));
+      m->Calculations().RecalculateAll();
     } else if (kind == 2) {
       const auto x1 = m->Emplace(CstType::base);
       m->Emplace(CstType::term, expr(17));   // D1 := D2∪D3   (join, listed first)
@@ -490,6 +507,7 @@ struct ModelSys {
 
   std::vector<Op> enabled(const Obj& m) {
     std::vector<Op> ops;
+    if (m.title == "__inactive__") return ops;
     const auto add = [&](int k, int a = 0, int b = 0, int c = 0) { Op o; o.k = k; o.a = a; o.b = b; o.c = c; ops.push_back(o); };
     const auto ord = order(m);
     const int n = static_cast<int>(ord.size());
@@ -516,6 +534,8 @@ struct ModelSys {
       else if (t == CstType::axiom) alts = core ? std::vector<int>{ 8 } : js ? std::vector<int>{ 9 } : std::vector<int>{ 7, 8, 9, 10 };
       else if (t == CstType::structured) alts = core ? std::vector<int>{ 12 } : js ? std::vector<int>{ 11 } : std::vector<int>{ 11, 12, 0, 5 };
       else if (t == CstType::base) alts = full ? std::vector<int>{ 19 } : std::vector<int>{};
+      else if (t == CstType::function) alts = js ? std::vector<int>{} : std::vector<int>{ 20, 21, 5 };
+      else if (t == CstType::predicate) alts = js ? std::vector<int>{} : std::vector<int>{ 22, 23 };
       for (int a : alts) add(SET_EXPR, i, a);
     }
     for (int i = 0; i < n; ++i) add(ERASE, i);
@@ -769,7 +789,7 @@ struct ModelSys {
 std::string seed_names(const std::vector<int>& codes) {
   std::string s;
   for (int cde : codes) {
-    const char* n = cde % 10 == 0 ? "M0" : cde % 10 == 1 ? "M1" : cde % 10 == 2 ? "M2" : "J1";
+    const char* n = cde % 10 == 0 ? "M0" : cde % 10 == 1 ? "M1" : cde % 10 == 2 ? "M2" : cde % 10 == 4 ? "M4-callables" : cde % 10 == 5 ? "(inactive)" : "J1";
     s += std::string(s.empty() ? "" : ", ") + n + (cde / 10 == 0 ? "/uid-ascending" : "/uid-descending");
   }
   return s;
@@ -789,7 +809,7 @@ int main(int argc, char** argv) {
   int depthA = 0, depthB = 0, seedsA = 0, seedsB = 0;
   if (opt.mode == "stale") {
     res.property = "C11";
-    table = { 0, 1, 2, 10, 11, 12 };
+    table = { 0, 1, 2, 10, 11, 12, 4, 14 };
     depthA = static_cast<int>(opt.num("depth", opt.thorough() ? 3 : 2));
     seedsA = static_cast<int>(opt.num("seeds", 4));
     depthB = static_cast<int>(opt.num("depth-core", opt.thorough() ? 4 : 3));
@@ -828,8 +848,10 @@ int main(int argc, char** argv) {
       sys.seedList = table;
     };
     if (opt.mode == "stale") {
-      run_phase(ModelSys::FULL, depthA, seedsA, "stale/full", depthB >= 0 && seedsB > 0 ? 0.6 : 1.0);
-      run_phase(ModelSys::CORE, depthB, seedsB, "stale/core", 1.0);
+      run_phase(ModelSys::FULL, depthA, seedsA, "stale/full", depthB >= 0 && seedsB > 0 ? 0.5 : 1.0);
+      run_phase(ModelSys::CORE, depthB, seedsB, "stale/core", 0.7);
+      // values calculated through term-functions and predicates: seed M4 (indices 6, 7 of the table; slots 0-5 inactive in this phase)
+      { const auto saved = table; table = { 5, 5, 5, 5, 5, 5, 4, 14 }; run_phase(ModelSys::FULL, static_cast<int>(opt.num("depth-callable", opt.thorough() ? 3 : 2)), 8, "stale/callables", 1.0); table = saved; }
     } else {
       run_phase(ModelSys::JSON, depthA, seedsA, "json", 1.0);
     }
